@@ -9,6 +9,7 @@ import (
 	"fmt"
 	"os"
 	"runtime/debug"
+	"runtime/pprof"
 	"sort"
 	"time"
 )
@@ -27,6 +28,14 @@ func register(id, explain string, run func(c *Ctx)) {
 func main() {
 	if len(os.Args) < 2 {
 		usage()
+	}
+	debug.SetGCPercent(800)
+	if pf := os.Getenv("GQLVET_PROF"); pf != "" {
+		f, err := os.Create(pf)
+		if err == nil {
+			_ = pprof.StartCPUProfile(f)
+			defer pprof.StopCPUProfile()
+		}
 	}
 	switch os.Args[1] {
 	case "list":
@@ -55,7 +64,9 @@ func main() {
 		if len(os.Args) < 4 {
 			usage()
 		}
-		os.Exit(runCheck(os.Args[2], os.Args[3]))
+		code := runCheck(os.Args[2], os.Args[3])
+		pprof.StopCPUProfile()
+		os.Exit(code)
 	default:
 		usage()
 	}
